@@ -346,7 +346,8 @@ package tex
 //@   maypanic
 //@   ensures #inrange 0 <= n && n <= old(blen(b))
 //@   ensures #kept blen(b) == n && b.lastRead == 0 && bvalid(b) && forall i int :: { at(b, i) } 0 <= i && i < n ==> at(b, i) == old(at(b, i))
-//@   ensures_panic n < 0 || n > old(blen(b))
+//@   ensures_panic #outofrange n < 0 || n > old(blen(b))
+//@   ensures_panic #panicstate b.lastRead == 0 && b.buf == old(b.buf) && b.off == old(b.off)
 //@   modifies b.buf, b.off, b.lastRead
 //
 //@ func Buffer.tryGrowByReslice
@@ -380,7 +381,7 @@ package tex
 //@   maypanic
 //@   ensures #nonneg n >= 0
 //@   ensures #view blen(b) == old(blen(b)) && bvalid(b) && cap(b.buf) - len(b.buf) >= n && forall i int :: { at(b, i) } 0 <= i && i < blen(b) ==> at(b, i) == old(at(b, i))
-//@   ensures_panic true
+//@   ensures_panic #negativeuntouched n < 0 ==> b.lastRead == old(b.lastRead) && b.buf == old(b.buf) && b.off == old(b.off)
 //@   modifies b.buf, b.off, b.lastRead, region($alloc), b.buf[0:cap(b.buf)]
 //
 //@ func Buffer.Write
